@@ -77,6 +77,7 @@ def run(ctx, prop):
     hist = {"cases": 0, "units": 0, "units_failed": 0, "configs": {}}
     distinct = set()
     work = [("witness", w) for w in F.witness_cases(prop)]
+    work.append(("gen", gen.coverage_case("C11-coverage")))
     for i in range(n):
         work.append(("gen", fix_for_cpp(gen.gen_case(ctx.rng, c11_opts(), cid=f"C11-{ctx.seed}-{i}"))))
     configs = [("gcc", "g++", True), ("clang", "clang++", True), ("gcc", "g++", False)]
